@@ -300,6 +300,28 @@ class C13(Prop):
                     ops.append([4, rng.choice(suspended)])
         return script, ops
 
+    def _gen_waiters(self, rng):
+        """several overlapping waiters of one name with different timeouts, time passing between them, then the dispatch"""
+        ncb = rng.randrange(1, 3)
+        script = [[rng.choice([0, 0, 1]), rng.choice([[], [1], [10]])] for _ in range(ncb)]
+        ops, n = [], 0
+        if rng.random() < 0.5:
+            ops.append([0, n, rng.randrange(ncb)])
+        for _ in range(rng.randrange(2, 5)):
+            ops.append([5, n, rng.choice([[], [5], [5], [10]])])
+            if rng.random() < 0.3:
+                ops.append([6, rng.choice([1, 5])])
+        ops.append([6, rng.choice([5, 5, 10])])
+        if rng.random() < 0.4:
+            ops.append([5, n, rng.choice([[], [5], [10]])])
+        ops.append([3, n, rng.choice([0, 1, 10, 11])])
+        tid = sum(1 for o in ops if o[0] in (3, 5)) - 1
+        ops.append([4, tid])
+        ops.append([6, rng.choice([1, 5, 10])])
+        if rng.random() < 0.5:
+            ops += [[5, n, rng.choice([[], [5]])], [6, 1]]
+        return script, ops
+
     @staticmethod
     def _model_ops(ops):
         """a synchronous block is equivalent to its subscription changes in order followed by its dispatches in order"""
@@ -321,6 +343,9 @@ class C13(Prop):
             script, ops = self._gen_burst(rng)
             if any(b[0] == 3 for op in ops if op[0] == 7 for b in op[1]):
                 cases.append({"kind": "burst", "script": script, "ops": ops})
+        for _ in range(150 if tier == "quick" else 3000):
+            script, ops = self._gen_waiters(rng)
+            cases.append({"kind": "waiters", "script": script, "ops": ops})
         return cases
 
     def run_impl(self, c):
